@@ -166,6 +166,10 @@ def run_c10(tier):
     try:
         r = vlib.tlc_or_broken("DimensionModel.tla", "DimensionModel.cfg", workers=4, xmx="2g")
         model.add("DimensionModel", r)
+        # pair packing for EVERY supported pair, by Apalache (TLC decides it at the width boundaries)
+        lemmas = vlib.unbounded_lemmas(model, "DimensionMath", ["PackInv"],
+                                       ("Packed(rr, cc) == rr * P16(Level(Max2(rr, cc))) + cc",
+                                        "Packed(rr, cc) == rr * P16(Level(rr)) + cc", "PackInv"))
         dims = set()
         for a, b in re.findall(r'<<\s*"DIM",\s*<<([\d,\s]+)>>,\s*<<([\d,\s]+)>>\s*>>', r["out"], re.S):
             dims.add("DIM %s %s" % (" ".join(re.findall(r"\d+", a)), " ".join(re.findall(r"\d+", b))))
@@ -218,7 +222,8 @@ def run_c10(tier):
                            ["cells whose address is at or above 2^40 (column widths 7-8 with row >= 1) are not "
                             "accessed; their header and width decoding is still checked",
                             "half-float values are restricted to exactly representable ones"],
-                           extra={"negative_control": neg, "tiers": tiers, "write_sequences": histories})
+                           extra={"negative_control": neg, "tiers": tiers, "write_sequences": histories,
+                                  "unbounded_lemmas_apalache": lemmas})
     finally:
         shutil.rmtree(work, ignore_errors=True)
 
